@@ -19,11 +19,11 @@ import (
 	"github.com/imroc/req/v3/verifharness/hk"
 )
 
-func init() { registry["C11"] = runC11 }
+func main() { hk.Main("C11", runC11, nil) }
 
 type authority struct {
-	Kind string `json:"kind"` // name | v4 | v6
-	Host string `json:"host"` // host text (no brackets)
+	Kind string  `json:"kind"` // name | v4 | v6
+	Host string  `json:"host"` // host text (no brackets)
 	Port *string `json:"port"` // nil | "" | digits
 }
 
